@@ -10,6 +10,7 @@ import (
 	"errors"
 	"fmt"
 	"strings"
+	"unicode/utf8"
 
 	"github.com/openconfig/goyang/pkg/indent"
 	"verif/mc/core"
@@ -211,6 +212,60 @@ func checkOneShot(prefix, text string) (bool, verdict) {
 	}
 	if string(b) != string(want) {
 		v.fingerprint, v.expected, v.observed = "Bytes-differs", fmt.Sprintf("%q", want), fmt.Sprintf("%q", b)
+		return false, v
+	}
+	// the one-shot rendering belongs to the caller: a prefix slice with room behind it (cut from a
+	// larger buffer) is used for two renderings in a row; the first result, the buffer behind the
+	// prefix and the text stay what they were, and writing into a result changes nothing else
+	buf := make([]byte, len(prefix), len(prefix)+len(text)+8)
+	copy(buf, prefix)
+	tail := buf[len(prefix):cap(buf)]
+	for i := range tail {
+		tail[i] = 0xEE
+	}
+	tb := []byte(text)
+	other := strings.Map(func(r rune) rune {
+		if r == '\n' {
+			return r
+		}
+		return 'z'
+	}, text)
+	wantOther, _ := ref(prefix, other)
+	var b1, b2 []byte
+	if pan, pt := core.Guard(func() { b1 = indent.Bytes(buf, tb); b2 = indent.Bytes(buf, []byte(other)) }); pan {
+		v.fingerprint, v.observed = "panic", pt
+		return false, v
+	}
+	intact := func() string {
+		for _, x := range tail {
+			if x != 0xEE {
+				return fmt.Sprintf("the caller's bytes behind the prefix were overwritten: %q", tail)
+			}
+		}
+		if string(buf) != prefix || string(tb) != text {
+			return fmt.Sprintf("arguments changed: prefix %q text %q", buf, tb)
+		}
+		return ""
+	}
+	switch {
+	case string(b1) != string(want):
+		v.fingerprint, v.expected, v.observed = "Bytes-result-changed-by-a-later-call", fmt.Sprintf("%q", want), fmt.Sprintf("%q", b1)
+		return false, v
+	case string(b2) != string(wantOther) && utf8.ValidString(text):
+		v.fingerprint, v.expected, v.observed = "Bytes-differs", fmt.Sprintf("%q", wantOther), fmt.Sprintf("%q", b2)
+		return false, v
+	case intact() != "":
+		v.fingerprint, v.expected, v.observed = "Bytes-writes-into-its-arguments", "arguments untouched", intact()
+		return false, v
+	}
+	if len(prefix) == 0 || len(text) == 0 {
+		return true, v // nothing to add: the text itself is handed back
+	}
+	for i := range b1 {
+		b1[i] = 'q'
+	}
+	if p := intact(); p != "" || (string(b2) != string(wantOther) && utf8.ValidString(text)) {
+		v.fingerprint, v.expected, v.observed = "Bytes-result-shares-memory", "a result of its own", p+fmt.Sprintf(" second result %q", b2)
 		return false, v
 	}
 	return true, v
